@@ -122,7 +122,10 @@ def run(ctx):
             for expr, is_store in brackets(fmt):
                 nlit += 1
                 allowed = GEN_FORMS.get(f.name)
-                ok = allowed is not None and any(re.match(p, expr) for p in allowed)
+                # a cast to a 64-bit integer type widens a factor and leaves the index form what it is (the second frozen-text
+                # false alarm of this rule on a repaired tree, see DESIGN 8.2): compare the form without such casts
+                shape = re.sub(r"\((?:orc_int64|orc_uint64|orc_intptr|long|longlong|ptrdiff_t|size_t|intptr_t)\)", "", expr)
+                ok = allowed is not None and any(re.match(p, shape) for p in allowed)
                 if is_store:
                     store_funcs.add(f.name)
                     ok = ok and f.name == "c_rule_storeX" and expr in ("i", "offset+i")
@@ -912,6 +915,48 @@ def d17_row_offset_wide(db, rep, rule="D17-ROW-OFFSET-WIDE"):
                   line=c.line)
     if n < 4:
         raise AnalysisBroken("only %d row-offset computations found (emulator + C back end)" % n)
+    n += c_index_products_wide(db, rep, rule)
+    return n
+
+
+def c_index_products_wide(db, rep, rule):
+    """The same for the element index of the resampling loads: the C back end prints `ptr[(p1 + i*p2) >> 16]`, a 16.16 position.
+    With int operands `i * p2` leaves the range of int after 32768 elements at scale 1.0 - the index wraps negative and the
+    generated C reads BEFORE the source array, where the emulator (64-bit operands) reads the right element.  Every printed
+    subscript that multiplies the loop index by a printed operand forms the product in a 64-bit type, unless the template is the
+    emulator flavour's (ORC_TARGET_C_OPCODE), whose operand names are 64 bits wide.  (Shared by C04.)"""
+    import re
+    from flow import Facts
+    WIDE = ("orc_int64", "orc_uint64", "orc_intptr", "long", "ptrdiff_t", "size_t", "intptr_t")
+    n = 0
+    for f in db.tu("orcprogram-c").main_functions():
+        fc = None
+        for c in {c.id: c for c in f.calls("orc_compiler_append_code")}.values():
+            a = c.args()
+            lit = strip_casts(a[1]) if len(a) > 1 else None
+            t = lit.get("str", "") if lit is not None and lit.k == "StringLiteral" else ""
+            m = re.search(r"ptr%d\[([^\]]*\bi\)?\s*\*\s*%s[^\]]*)\]", t)
+            if not m:
+                continue
+            n += 1
+            rep.saw(f)
+            ok = any(w in m.group(1) for w in WIDE)
+            if not ok:
+                fc = fc or Facts(f)
+                for cd in fc.conds(c):
+                    if cd[0] != "switch" and cd[1] and "ORC_TARGET_C_OPCODE" in unparse(cd[0]) or (cd[0] != "switch" and cd[1] and "& 16" in unparse(cd[0])):
+                        ok = True
+                if not ok:
+                    for x in f.walk():
+                        if x.k == "IfStmt" and x.c[1] is not None and any(y.id == c.id for y in x.c[1].walk()) and "target_flags" in unparse(x.c[0]):
+                            tx = unparse(x.c[0])
+                            if "ORC_TARGET_C_OPCODE" in tx or str(db.enum("ORC_TARGET_C_OPCODE")) in tx:
+                                ok = True
+            rep.check(ok, rule, where(f), "c-backend:index-product@%s" % c.line, "loop index times operand is formed in a 64-bit type",
+                      "%s prints `%s`: index and operand are ints in the generated function, the product overflows beyond 32768 elements at scale 1.0 and the "
+                      "generated C reads before the source array where emulation reads the right element" % (f.name, t.strip()[:70]), line=c.line)
+    if n < 2:
+        raise AnalysisBroken("only %d index products found in the C back end's templates" % n)
     return n
 
 
